@@ -79,6 +79,7 @@ def strategy(draw, tier="quick"):
         "en": [int(draw(st.integers(0, 7)) < en_w) for _ in range(ncyc + 2)],
         "delay_ns": draw(st.sampled_from([0, 0, 1, 2])),
         "validate": draw(st.sampled_from([None, None, None, 0, 5, 15])),  # argument value that does not validate
+        "reg": draw(st.booleans()),  # call request and argument come from registers inside the DUT
     }
     return {"pats": pats, "ops": ops, "mock": mock}
 
@@ -130,8 +131,15 @@ def run_case(case) -> Result:
                 m.d.sync += self.last_a[j].eq(a)
                 return {"cyc": self.cyc, "cnt": self.cnt[j]}
 
-            with Transaction().body(m, ready=self.go):
-                r = self.tgt(m, v=self.tv)
+            go_s, tv_s = self.go, self.tv
+            if mock.get("reg"):
+                # the call request and its argument come from registers, i.e. they change exactly at the clock edge
+                # (hardware callers issuing back-to-back calls with changing arguments)
+                go_r, tv_r = Signal(name="go_r"), Signal(4, name="tv_r")
+                m.d.sync += [go_r.eq(self.go), tv_r.eq(self.tv)]
+                go_s, tv_s = go_r, tv_r
+            with Transaction().body(m, ready=go_s):
+                r = self.tgt(m, v=tv_s)
                 m.d.comb += self.got.eq(r.r)
                 m.d.comb += self.tdone.eq(1)
                 m.d.sync += self.tcnt.eq(self.tcnt + 1)
@@ -301,14 +309,20 @@ def run_case(case) -> Result:
 
     async def mockdrv(ctx):
         dones, explog = 0, []
-        for c, (go, tv) in enumerate(zip(mock["go"], mock["tv"])):
+        seq = list(zip(mock["go"], mock["tv"]))
+        if mock.get("reg"):
+            seq = seq + [(0, 0)]
+        prev = (0, 0)
+        for c, (go_in, tv_in) in enumerate(seq):
+            go, tv = prev if mock.get("reg") else (go_in, tv_in)
+            prev = (go_in, tv_in)
             await ctx.delay(1e-8)
             en_now = st_["last_en"]
             if st_["effects"] != dones or st_["log"] != explog:
                 errs.append(f"mock cycle {c}: {dones} calls executed {explog}, effects applied {st_['log']}")
                 return
-            ctx.set(dut.go, go)
-            ctx.set(dut.tv, tv)
+            ctx.set(dut.go, go_in)
+            ctx.set(dut.tv, tv_in)
             *_, tdone, got = await ctx.tick().sample(dut.tdone, dut.got)
             valid = bad is None or tv != bad
             if go and not en_now:
@@ -350,6 +364,8 @@ def run_case(case) -> Result:
             res.labels.append(k)
     if mock["delay_ns"]:
         res.labels.append("mock-delay")
+    if mock.get("reg"):
+        res.labels.append("registered-caller")
     if errs:
         return res.fail(errs[0], vkeys[0] if vkeys else None)
     res.nontrivial = flags["blocked2"] and flags["mock_off"] and res.stats.get("mock_calls", 0) >= 2
